@@ -1420,7 +1420,14 @@ func runWire(t *testing.T, out *verifOut, stream string, gen func(newCase func(n
 		}
 	}
 	if rp := os.Getenv("VERIF_REPLAY"); rp != "" {
-		runOps("replay", rp)
+		// a replay file may belong to the jsonrpc2 streams of this engine: keep the ops this harness knows
+		step := newCase("replay")
+		for _, op := range readOpsFile(t, rp) {
+			k := strings.Fields(op)[0]
+			if strings.HasPrefix(k, "io.") || (stream == "mcp" && (strings.HasPrefix(k, "c.") || strings.HasPrefix(k, "r.") || strings.HasPrefix(k, "sse."))) {
+				step(op)
+			}
+		}
 		return
 	}
 	if dir := os.Getenv("VERIF_CORPUS"); dir != "" {
@@ -1863,7 +1870,7 @@ func TestVerifWireMcp(t *testing.T) {
 				step("r.rt "+name+" "+j1.tok(), "type:"+name)
 			}
 		}
-		n := verifN(700, 40000)
+		n := verifN(2500, 35000)
 		iog := &ioGen{r: r}
 		for c := 0; c < n; c++ {
 			step := newCase(fmt.Sprintf("w%d", c))
@@ -2003,7 +2010,7 @@ func TestVerifWireBatch(t *testing.T) {
 			}
 		}
 		g := &ioGen{r: r, batchy: true}
-		n := verifN(1500, 80000)
+		n := verifN(5000, 80000)
 		for c := 0; c < n; c++ {
 			g.run(newCase(fmt.Sprintf("b%d", c)))
 		}
